@@ -5,7 +5,7 @@ from ..harness import where
 from ..lineage import through
 from ..loops import item_of, lift
 from ..mirutil import Tracer, call_matches, callee_name, const_value, field_path
-from ..pairloops import PairLoops, positions_frames
+from ..pairloops import positions_frames
 from ..sym import NUM, SYM
 from ..terms import Norm, NotNumeric
 
@@ -81,58 +81,49 @@ def run(ctx):
     rep.saw(test_fn)
     # ---- R2 positives propagate --------------------------------------------------------------
     b = test_fn
-    pl = PairLoops(f, b, 'Intersect', 'intersects')
+    from ..pairs import PairNests
+    pl = PairNests(f, test_fn, 'Intersect', 'intersects')
     b = pl.b            # the nest form of the overlap function
-    cfgb, trb = pl.cfg, pl.tr
     rep.floor('R2', 'Intersect::intersects call sites in the overlap function', len(pl.leafs), 2, where(b))
     # the function's answer is "some tested pair overlaps": true on every path that saw a positive test, false on every other
-    from ..nest import Nest
-    nn = Nest(f, test_fn, yields=False)
-    okr, whyr = nn.bool_reduction([bi for bi, _ in pl.leafs])
+    okr, whyr = pl.n.bool_reduction([bi for bi, _ in pl.leafs])
     rep.check(okr, 'R2', 'positive-overlap-propagates', where(b),
               'the overlap function %s' % whyr,
               'a positive intersects() result can be lost or a negative one reported as overlap: the function %s' % whyr)
-    # ---- R3 pair completeness ------------------------------------------------------------------
+    # ---- R3 pair completeness (by value: which sequences the loops range over, what the operands are) -------
     for p in pl.problems:
         rep.fail('R3', 'loop-structure', where(b), p, 'undecidable-shape')
     tri, per = pl.tri, pl.per
     if rep.check(tri is not None, 'R3', 'anchor:in-cell-pair-loop', where(b), 'found', 'the in-cell pair loop was not recognised',
                  'undecidable-shape' if pl.leafs else 'anchor-lost'):
         rep.check(not tri['why'] and tri['c'] == 1, 'R3', 'in-cell-pairs-complete', where(b, tri['bb']),
-                  'enumerate() x skip(index + 1) over the same placements: every unordered pair {i<j} exactly once',
-                  'the in-cell loop does not visit every unordered pair of distinct copies: skip(index + %s) %s'
+                  'outer placement i over all relative positions, inner from i + 1 over the same: every unordered pair {i<j} exactly once',
+                  'the in-cell loop does not visit every unordered pair of distinct copies: inner loop starts at index + %s %s'
                   % (tri['c'], '; '.join(tri['why'])))
-        rep.sample('in-cell: for (index, s1) in placements.enumerate() { for s2 in placements.skip(index+%s) { s1.intersects(s2) } }' % tri['c'])
+        rep.sample('in-cell: intersects(T(C(x_i)), T(C(x_j))), x_i over relative_positions from 0, x_j from i+%s' % tri['c'])
     if rep.check(per is not None, 'R3', 'anchor:periodic-pair-loop', where(b), 'found', 'the periodic pair loop was not recognised',
                  'undecidable-shape' if pl.leafs else 'anchor-lost'):
-        rep.check(not per['why'] and per['zero'] is False, 'R3', 'periodic-pairs-complete', where(b, per['bb']),
-                  'placements x relative_positions x periodic_images(p, shells, zero=false): all ordered pairs incl. self-images, '
-                  'identity image excluded',
-                  'the periodic loop is not the full product over all images (zero=%s) %s' % (per['zero'], '; '.join(per['why'])))
+        from .C14 import excludes_identity
+        zs = [excludes_identity(ctx, z) for z in per.get('zero_values', [])]
+        zero_ok = bool(zs) and all(z is True for z in zs)
+        rep.check(not per['why'] and zero_ok, 'R3', 'periodic-pairs-complete', where(b, per['bb']),
+                  'placements x relative_positions x periodic_images(p, shells, untranslated image excluded): all ordered pairs incl. '
+                  'self-images',
+                  'the periodic loop is not the full product over all images (untranslated image excluded: %s) %s'
+                  % (zs, '; '.join(per['why'])))
         # ---- R4 shells >= 1 -----------------------------------------------------------------------
-        shell_cases = _shell_cases(ctx, test_fn, per)
-        sh = per['shells']
-        if shell_cases is not None:
-            vals = [v for _, v in shell_cases]
-            okv = bool(vals) and all(v[0] == 'num' and v[1] >= 1 for v in vals)
-            rep.check(okv, 'R4', 'shells-at-least-one', where(b, per['bb']),
-                      'every value the shells argument can take is >= 1: %s' % sorted({int(v[1]) for v in vals if v[0] == 'num'}),
-                      'the number of neighbouring shells searched can be %s: periodic overlaps with the nearest images are missed'
-                      % sorted({(int(v[1]) if v[0] == 'num' else 'non-constant') for v in vals}, key=str))
-            rep.sample('periodic: shells in %s, zero=false' % sorted({str(v[1]) for v in vals}))
-        elif sh is None:
-            rep.ok('R4', 'shells-at-least-one', where(b, per['bb']), 'shell count is not a constant: lower bound not decided (accepted)')
-            rep.note('R4: shells argument is not constant; lower bound not decided')
-        else:
-            rep.check(all(isinstance(v, int) and v >= 1 for v in sh) and len(sh) >= 1, 'R4', 'shells-at-least-one', where(b, per['bb']),
-                      'every value that can reach the shells argument is >= 1: %s' % sorted(set(sh)),
-                      'the number of neighbouring shells searched can be %s: periodic overlaps with the nearest images are missed' % sh)
-            rep.sample('periodic: shells in %s, zero=false' % sorted(set(sh)))
+        vals = per.get('shell_values', [])
+        okv = bool(vals) and all(v[0] == 'num' and v[1] >= 1 for v in vals)
+        rep.check(okv, 'R4', 'shells-at-least-one', where(b, per['bb']),
+                  'every value the shells argument can take is >= 1: %s' % sorted({int(v[1]) for v in vals if v[0] == 'num'}),
+                  'the number of neighbouring shells searched can be %s: periodic overlaps with the nearest images are missed'
+                  % sorted({(int(v[1]) if v[0] == 'num' else 'non-constant') for v in vals}, key=str))
+        rep.sample('periodic: shells in %s, untranslated image excluded' % sorted({str(v[1]) for v in vals}))
         # ---- R5 prefilter ---------------------------------------------------------------------------
         _prefilter(ctx, pl, per)
     # ---- R7 known hard instances of the shell heuristic ---------------------------------------------------
     if per is not None:
-        _shell_witnesses(ctx, pl, per, _shell_cases(ctx, test_fn, per))
+        _shell_witnesses(ctx, pl, per, per.get('shell_cases'))
     # ---- R6 the radius used by the prefilter really encloses the shape ---------------------------------
     _enclosing(ctx)
     # the periodic images really are the lattice translates of the placements (C14 obligations, necessary here)
@@ -148,79 +139,59 @@ def run(ctx):
 
 
 def _prefilter(ctx, pl, per):
-    rep, f = ctx.rep, ctx.facts
-    b, cfg, tr = pl.b, pl.cfg, pl.tr
-    bi = per['bb']
-    inner = per['d2']['loop']
-    # conditions the leaf call is control dependent on inside the innermost loop (excluding the loop's own next() switch)
-    conds = []
-    for sb in sorted(inner['body']):
-        t = b.blocks[sb]['term']
-        if t['t'] != 'switch' or not cfg.dominates(sb, bi) or sb == per['d2']['header']:
-            continue
-        o = tr.origin(t['discr'])
-        if o['o'] == 'rvalue' and o['rv']['r'] == 'discr':
-            continue      # Option discriminant of next()
-        conds.append((sb, t, o))
+    """Every condition that decides, inside the periodic nest, whether a pair is tested must be `d^2 <= T` (or `<`) with d the
+    distance between the two placements' positions and T >= (2R)^2, R = the shape's enclosing radius."""
+    rep = ctx.rep
+    b = pl.b
+    conds = [c for c in pl.prefilter_conditions(per)]
+    deciding = [c for c in conds if c[2]]
+    other = [c for c in conds if not c[2]]
     if not conds:
-        rep.ok('R5', 'prefilter-sound', where(b, bi), 'no distance prefilter: every image pair is tested')
+        rep.ok('R5', 'prefilter-sound', where(b, per['bb']), 'no distance prefilter: every image pair is tested')
         return
     n = Norm()
-
-    def leaf(o):
-        if o['o'] == 'call':
-            t = o['term']
-            if is_trait_call(t, 'Shape', 'enclosing_radius'):
-                r = tr.origin(t['args'][0])
-                if r['o'] == 'arg' and field_path(r['p'])[-1:] == ['shape']:
-                    return SYM('R')
-            if (callee_name(t) or '').endswith('norm_squared'):
-                v = tr.origin(t['args'][0])
-                if v['o'] == 'call' and 'point_ops' in (callee_name(v['term']) or '') and 'Sub' in (callee_name(v['term']) or ''):
-                    srcs = []
-                    for a in v['term']['args']:
-                        p = tr.origin(a)
-                        if p['o'] == 'call' and call_matches(p['term'], 'Transform2::position'):
-                            h, fp = item_of(tr, p['term']['args'][0])
-                            srcs.append(h)
-                        else:
-                            srcs.append(None)
-                    want = {per['d1']['header'], per['d2']['header']}
-                    if set(srcs) == want:
-                        return SYM('d2')
-        return None
-    for sb, t, o in conds:
-        e = lift(tr, t['discr'], leaf)
+    sx = per['sx']
+    o = per['hits'][0]
+    st = o.st
+    try:
+        def pos(v):
+            m = sx.field(st, v, '0', 0)
+            return n.rf(sx.mat_elem(st, m, 0, 2)), n.rf(sx.mat_elem(st, m, 1, 2))
+        x1, y1 = pos(per['PA'])
+        x2, y2 = pos(per['PB'])
+        d2 = (x1 - x2) * (x1 - x2) + (y1 - y2) * (y1 - y2)
+    except (NotNumeric, TypeError, KeyError) as ex:
+        rep.fail('R5', 'prefilter-sound', where(b, per['bb']), 'cannot express the distance between the two placements: %s' % str(ex)[:80],
+                 'undecidable-shape')
+        return
+    from ..sym import APP
+    R = n.rf(APP('Shape::enclosing_radius', SYM('self.shape')))
+    for cv, pol, decides in conds:
         ok = False
-        why = 'the prefilter is not a comparison of the squared centre distance of the two placements with a threshold'
-        if e and e[0] == 'cmp':
-            op, lhs, rhs = e[1], e[2], e[3]
-            if rhs == SYM('d2'):
-                lhs, rhs = rhs, lhs
-                op = {'Lt': 'Gt', 'Le': 'Ge', 'Gt': 'Lt', 'Ge': 'Le'}.get(op, op)
-            true_t = t['otherwise']
-            tested_when_true = bi in cfg.reachable_from([true_t], avoid={per['d2']['header']}) and \
-                bi not in cfg.reachable_from([x[1] for x in t['arms'] if x[0] == '0'], avoid={per['d2']['header']})
-            if lhs == SYM('d2'):
-                try:
-                    T = n.rf(rhs)
-                    R = n.atom('R')
-                    diff = T - n.const(4) * R * R
-                    from ..poly import reduce_rf
-                    d = reduce_rf(diff)
-                    nonneg = d.d.is_const() and d.d.const_value() > 0 and all(c >= 0 for c in d.n.t.values()) and \
-                        all(all(a == 'R' for a, _ in m) for m in d.n.t)
-                    if op in ('Lt', 'Le') and tested_when_true:
-                        ok = nonneg
-                        why = 'pairs are tested when d^2 %s T with T = %s; T - 4R^2 = %s' % (op, T.canon(), d.n.canon())
-                        if not nonneg:
-                            why = 'the prefilter threshold T = %s is smaller than (2R)^2: shapes whose centres are closer than 2R ' \
-                                  'can overlap but are skipped' % T.canon()
-                    else:
-                        why = 'the prefilter tests pairs when d^2 %s T (%s): close pairs are skipped' % (op, 'true edge' if tested_when_true else 'false edge')
-                except NotNumeric:
-                    why = 'threshold is not a polynomial in the enclosing radius'
-        rep.check(ok, 'R5', 'prefilter-sound', where(b, sb), why, why)
+        why = 'a condition on the way to the overlap test is not a comparison of the squared centre distance with a threshold'
+        cc = n.cmp_canon(cv, pol)
+        if cc[0] == 'cmp' and cc[1] in ('Lt', 'Le'):
+            T = d2 - cc[2]          # condition is  d2 - T  OP  0
+            from ..poly import reduce_rf
+            try:
+                diff = reduce_rf(T - n.const(4) * R * R)
+                ratoms = R.atoms()
+                only_r = all(a in ratoms for a in diff.atoms()) and all(a in ratoms for a in reduce_rf(T).atoms())
+                nonneg = diff.d.is_const() and diff.d.const_value() > 0 and all(c >= 0 for c in diff.n.t.values())
+                if only_r:
+                    ok = nonneg
+                    why = 'pairs are tested when d^2 %s T with T = %s; T - 4R^2 = %s' % (cc[1], reduce_rf(T).canon()[:80], diff.n.canon()[:80])
+                    if not nonneg:
+                        why = 'the prefilter threshold T = %s is smaller than (2R)^2: shapes whose centres are closer than 2R can ' \
+                              'overlap but are skipped' % reduce_rf(T).canon()[:80]
+                else:
+                    # maybe the comparison runs the other way (pairs tested when d^2 is LARGE)
+                    T2 = d2 + cc[2]
+                    if all(a in ratoms for a in reduce_rf(T2).atoms()):
+                        why = 'the prefilter tests pairs when d^2 is ABOVE a threshold: close pairs are skipped'
+            except (NotNumeric, TypeError):
+                why = 'threshold is not a polynomial in the enclosing radius'
+        rep.check(ok, 'R5', 'prefilter-sound', where(b, per['bb']), why, why)
         rep.sample('prefilter: %s' % why)
 
 
